@@ -36,6 +36,7 @@ type Options struct {
 	ResourceKeys   []string
 	FlushInterval  string
 	OtlpMaxRetries int
+	Transport      map[string]interface{} // settings of the "transport.default" block (TRANSPORT.md), e.g. max-idle-connections
 }
 
 // Variants lists every bundled backend in every mode the properties name.
@@ -140,6 +141,9 @@ func New(v Variant, o Options) (*Kit, error) {
 		st["write_timeout"] = "5s"
 	}
 	cfg.Set(v.Backend, st)
+	if o.Transport != nil {
+		cfg.Set("transport", map[string]interface{}{"default": o.Transport})
+	}
 	logger := logrus.StandardLogger()
 	pool := transport.NewTransportPool(logger, cfg)
 	k.RT = fakes.NewRT()
